@@ -10,7 +10,6 @@ sys.path.insert(0, HERE)
 
 ALL = ["C%02d" % i for i in range(1, 21)]
 NA_REASONS = {
-    "C02": "restart losslessness quantifies over whole-engine histories x configurations (HNSW build, HashMap stores, bincode, real files); no function-sized kernel is within reach of CBMC/z3 beyond the obligations already claimed under C01/C09/C13 (DESIGN 3)",
     "C05": "linearizability quantifies over thread interleavings of the real engine; Kani does not model threads and the operations sit on heap containers and I/O that cannot be bit-blasted (DESIGN 3)",
     "C16": "statistical recall floor over thousands of float vectors; no bounded symbolic encoding exists (DESIGN 3)",
 }
